@@ -923,8 +923,12 @@ def _seq_arm_cases(canon, abody):
         if block.get("expr") is not None:
             stmts.append({"k": "ExprStmt", "e": block["expr"]})
         for s_ in stmts:
+            if s_.get("k") == "LetStmt" and s_.get("inl_param"):
+                continue                     # parameter binding of an inlined helper
             e = hq.peel(s_.get("e") or s_.get("init") or {})
             k = e.get("k")
+            if k == "Tup" and not e.get("elems"):
+                continue                     # `()` value of an inlined helper
             if k == "Block":
                 if not run(e, nonzero, st):
                     return False
